@@ -19,4 +19,5 @@ INVARIANT CompressedSizeDetermined
 INVARIANT ExactInEnvelope
 INVARIANT AcceptWithinLimit
 INVARIANT DoneMeansNoRoom
+INVARIANT RejectDone
 CHECK_DEADLOCK FALSE
